@@ -602,12 +602,19 @@ func CreateTemp(dir, pattern string) (*File, error) {
 	if i := strings.LastIndex(pattern, "*"); i >= 0 {
 		prefix, suffix = pattern[:i], pattern[i+1:]
 	}
-	f.mu.Lock()
-	f.tmpSeq++
-	n := f.tmpSeq
-	f.mu.Unlock()
-	name := path.Join(dir, fmt.Sprintf("%s%09d%s", prefix, 100000000+n*7919, suffix))
-	return OpenFile(name, os.O_RDWR|os.O_CREATE|os.O_EXCL, 0o600)
+	// like os.CreateTemp: a name that already exists is skipped
+	for {
+		f.mu.Lock()
+		f.tmpSeq++
+		n := f.tmpSeq
+		name := path.Join(dir, fmt.Sprintf("%s%09d%s", prefix, 100000000+n*7919, suffix))
+		_, _, exists := f.lookup(clean(name))
+		f.mu.Unlock()
+		if exists {
+			continue
+		}
+		return OpenFile(name, os.O_RDWR|os.O_CREATE|os.O_EXCL, 0o600)
+	}
 }
 
 func TempFile(dir, pattern string) (*File, error) { return CreateTemp(dir, pattern) }
